@@ -179,9 +179,23 @@ func runC19(p *Prog, r *Report, tier string) {
 					if c, ok := cf.X.(*ssa.Call); ok && cf.Op == token.EQL && calleeName(&c.Call) == "iface:pkg/entities.Set.GetSetType" {
 						if v, ok := constInt(cf.Y); ok && v == 0 {
 							blk := i.Block().Succs[cf.Succ]
+							pred := i.Block()
+							// an empty block that only jumps on is followed once
+							if len(blk.Instrs) == 1 && len(blk.Succs) == 1 {
+								if _, isJ := blk.Instrs[0].(*ssa.Jump); isJ {
+									pred, blk = blk, blk.Succs[0]
+								}
+							}
 							for _, x := range blk.Instrs {
 								if rt, ok := x.(*ssa.Return); ok && len(rt.Results) == 1 {
-									if cst, ok := rt.Results[0].(*ssa.Const); ok && cst.IsNil() {
+									res := rt.Results[0]
+									// the result variable joined at the return block: its value on the template edge
+									if ph, ok := res.(*ssa.Phi); ok && ph.Block() == blk {
+										if e := phiEdgeFrom(ph, pred); e != nil {
+											res = e
+										}
+									}
+									if cst, ok := res.(*ssa.Const); ok && cst.IsNil() {
 										okT = true
 									}
 								}
@@ -244,6 +258,67 @@ func runC19(p *Prog, r *Report, tier string) {
 				okFill = true
 			}
 		})
+		if !okFill && recsCall != nil {
+			// append form: out = append(out, convert(msg, rec)) once, unconditionally, per iteration of the range over the
+			// records, starting from an empty slice made outside the loop
+			eachInstr(f, func(in ssa.Instruction) {
+				c, ok := in.(*ssa.Call)
+				if !ok || calleeName(&c.Call) != "builtin:append" || len(c.Call.Args) != 2 {
+					return
+				}
+				ph, ok := c.Call.Args[0].(*ssa.Phi)
+				if !ok || !inLoop(ph.Block()) {
+					return
+				}
+				back, startsEmpty := false, true
+				for _, e := range ph.Edges {
+					switch x := e.(type) {
+					case *ssa.Call:
+						if x == c {
+							back = true
+						} else {
+							startsEmpty = false
+						}
+					case *ssa.Const:
+						if !x.IsNil() {
+							startsEmpty = false
+						}
+					case *ssa.MakeSlice:
+						if l, ok := constInt(x.Len); !ok || l != 0 || inLoop(x.Block()) {
+							startsEmpty = false
+						}
+					default:
+						startsEmpty = false
+					}
+				}
+				if !back || !startsEmpty {
+					return
+				}
+				// unconditional within the iteration: only jumps between the loop head and the append
+				for b := c.Block(); b != nil && b != ph.Block(); b = b.Idom() {
+					if id := b.Idom(); id != nil && id != ph.Block() {
+						if _, isIf := id.Instrs[len(id.Instrs)-1].(*ssa.If); isIf {
+							whyF = "the converted record is appended only under a condition: some records yield no message"
+							return
+						}
+					}
+				}
+				hasMsg, hasRec := false, false
+				for _, a := range backwardSlice(c.Call.Args[1], 400) {
+					if a == msg {
+						hasMsg = true
+					}
+					if s, ok := rangeElem(a); ok && sameValue(s, recsCall) {
+						hasRec = true
+					}
+				}
+				if !hasMsg || !hasRec {
+					whyF = "the appended message is not built from (msg, the record of this iteration)"
+					return
+				}
+				okFill = true
+			})
+		}
 		r.Check(okFill, "R-ORDER.convert", k+": out[i] built from records[i] for every record", p.pos(f.Pos()), "make(len(records)); for i, rec := range records { out[i] = convert(msg, rec) }", whyF, true)
 		// header fields in the per-record closure(s)
 		want := map[string]string{"TimeReceived": "GetExportTime", "SequenceNumber": "GetSequenceNum", "ObsDomainID": "GetObsDomainID", "ExportAddress": "GetExportAddress"}
